@@ -148,12 +148,14 @@ def inline_enum_forms(name):
     return {"t30": dict(copy.deepcopy(inner), nullable=True), "t31": dict(copy.deepcopy(inner), type=[inner["type"], "null"])}
 
 
-def enum_null_forms(values, typ):
+def enum_null_forms(values, typ, siblings=None):
+    """siblings: keywords written next to the enum (default / description / example): they belong to the property in every notation"""
     base = {"type": typ, "enum": list(values)}
+    sib = copy.deepcopy(siblings or {})
     return {    # the explicit union is the reference spelling: every other notation is compared with it
-        "explicit-union": {"oneOf": [{"type": "null"}, copy.deepcopy(base)]},
-        "enum-null-untyped": {"enum": list(values) + [None]},
-        "enum-null-31": {"type": [typ, "null"], "enum": list(values) + [None]},
+        "explicit-union": dict({"oneOf": [{"type": "null"}, copy.deepcopy(base)]}, **sib),
+        "enum-null-untyped": dict({"enum": list(values) + [None]}, **sib),
+        "enum-null-31": dict({"type": [typ, "null"], "enum": list(values) + [None]}, **sib),
     }
 
 
@@ -231,6 +233,12 @@ def cases(tier):
             for lit in (False, True):
                 yield {"labels": ["rewrite=enum-null", f"type={typ}", f"n={len(values)}", f"pos={pos}"] + (["literal_enums"] if lit else []),
                        "payload": {"mode": "enum-null", "type": typ, "values": values, "pos": pos, "literal_enums": lit}}
+                # ... with sibling keywords next to the enum: a default (a listed value / null), a description + example
+                for sname, sib in (("default-value", {"default": values[-1]}), ("default-null", {"default": None}), ("described", {"description": "what it is", "example": values[0]})):
+                    if sname == "default-null" and pos not in ("prop", "param"):
+                        continue
+                    yield {"labels": ["rewrite=enum-null", f"type={typ}", f"n={len(values)}", f"pos={pos}", f"siblings={sname}"] + (["literal_enums"] if lit else []),
+                           "payload": {"mode": "enum-null", "type": typ, "values": values, "pos": pos, "literal_enums": lit, "siblings": sib, "sname": sname}}
     # single-element wrappers
     for target in WRAP_TARGETS:
         for pos in POS + SHARED_POS:
@@ -381,9 +389,9 @@ def run_case(p):
         key = f"nullable2/{p['kind']}/{'+'.join(p['pos'])}"
     elif mode == "enum-null":
         opts = {"literal_enums": p["literal_enums"]}
-        for n, sch in enum_null_forms(p["values"], p["type"]).items():
+        for n, sch in enum_null_forms(p["values"], p["type"], p.get("siblings")).items():
             variants[n] = gen.generate(holder(p["pos"], sch, {}), **opts)
-        key = f"enum-null/{p['type']}{len(p['values'])}/{p['pos']}" + ("/literal" if p["literal_enums"] else "")
+        key = f"enum-null/{p['type']}{len(p['values'])}/{p['pos']}" + ("/literal" if p["literal_enums"] else "") + (f"/{p['sname']}" if p.get("sname") else "")
     elif mode == "wrapper":
         for n, sch in wrapper_forms(p["target"]).items():
             comps = {p["target"]: copy.deepcopy(WRAP_TARGETS[p["target"]])}
